@@ -497,6 +497,10 @@ class RaggedView2:
                                   np.ones_like(self.lengths))
 
         # starts, lengths, col_step = (self.starts, self.lengths, self.col_step)
+        # bounds far beyond any row act like the row ends: bring them into a range in which the index arithmetic below cannot overflow
+        limit = int(np.iinfo(self.lengths.dtype).max) // 2
+        start, stop = (bound if bound is None else max(-limit, min(limit, bound)) for bound in (col_slice.start, col_slice.stop))
+        col_slice = slice(start, stop, col_slice.step)
         step = 1 if col_slice.step is None else col_slice.step
         if step > 0:
             return self._pos_col_slice(slice(col_slice.start, col_slice.stop, step))
